@@ -160,7 +160,7 @@ func GenAlone(r *prng.R, mode int, nops int) (stream, content []byte, info GenIn
 	enc := NewEncoder(NewModel(p), w)
 	info.OpCount = genOps(r, enc, nops, 1<<30, nil)
 	if mode != 1 {
-		enc.PutMarker()
+		enc.PutMarkerLen(r.Pick(2, 2, 2, 3, 9, 10, 18, 273, r.Range(2, 273)))
 	}
 	body := enc.Finish()
 	size := int64(-1)
